@@ -234,6 +234,21 @@ Proof.
   - vm_compute. tauto.
   - vm_compute. intros [E|[E|[E|[]]]]; discriminate.
 Qed.
+(* texts.get(path) is None for a new key and None <> "": a new entry is created even when it prints as "" *)
+Example ex_completed3 :
+  completed (ex_W false true) ex_fuel ex_fs ex_root ex_body3 (ex_texts false true) (ex_files false true) ex_files3'
+            (fst (fst ex_out3)) (snd (fst ex_out3)).
+Proof. exists (fst (ex_bfs false true)), (skipn 3 (snd (fst ex_out3))). repeat split; vm_compute; reflexivity. Qed.
+Example C16_added_created_empty_ex :
+  content (fst (fst ex_out3)) (zs "/t/e") = Some [] /\ In (OpWrite (zs "e")) (snd (fst ex_out3)) /\
+  content ex_fs (zs "/t/e") = None.
+Proof.
+  assert (AF : alias_free (ex_W false true) (ex_texts false true) ex_files3') by (apply nodupb_sound; vm_compute; reflexivity).
+  destruct (C16_added_created (ex_W false true) _ _ _ _ _ _ _ _ _ (zs "e") ([] : model (ex_W false true)) ex_completed3 AF) as [A B].
+  - vm_compute. tauto.
+  - vm_compute. intros [E|[E|[E|[]]]]; discriminate.
+  - split; [exact A|]. split; [exact B | vm_compute; reflexivity].
+Qed.
 Example C16_nothing_else_touched_ex : content (ex_fs' false true) (zs "/t/a") = content ex_fs (zs "/t/a").
 Proof.
   apply (C16_nothing_else_touched (ex_W false true) _ _ _ _ _ _ _ _ _ (zs "/t/a") (ex_completed false true eq_refl) (ex_alias_free false true)).
